@@ -28,7 +28,7 @@ CASE_TIMEOUT = 900
 
 QUICK = [('fcc', 1), ('bcc', 1), ('sc', 1), ('hcp', 1), ('square', 1), ('honey', 1), ('omega', 1), ('diamond', 1),
          ('tria', 1), ('b2', 1), ('lieb', 1), ('dtria', 1), ('rumpled', 1), ('fcc', 2), ('square', 2), ('honey', 2),
-         ('tric', 1), ('mono', 1), ('p4m', 1), ('p2', 1), ('mono2', 1), ('sc', 2), ('bcc', 2), ('dhcp', 1), ('omega_perm', 1), ('rumpled_spec', 1), ('dtria_spec', 1)]
+         ('tric', 1), ('mono', 1), ('p4m', 1), ('p2', 1), ('mono2', 1), ('sc', 2), ('bcc', 2), ('dhcp', 1), ('omega_perm', 1), ('rumpled_spec', 1), ('dtria_spec', 1), ('p2two', 1)]
 THOROUGH = QUICK + [('kagome', 1), ('l12', 1), ('tet', 1), ('rect', 1), ('hcp', 2), ('tria', 2),
                     ('dtria', 2), ('diamond', 2), ('rect', 2), ('lieb', 2), ('p2', 2), ('mono', 2)]
 E2E = {('dtria_spec', 1), ('fcc', 1), ('bcc', 1), ('sc', 1), ('square', 1), ('tria', 1), ('honey', 1), ('dtria', 1), ('p2', 1)}
@@ -56,6 +56,10 @@ def run_case(case):
     name, nth = case['name'], case['Nthermo']
     diff = work_vac.get_calc(name, nth)
     real = diff.GFcalc
+    # the unmodified calculator is evaluated on a second object whose caches are never cleared between the inputs of a case: that is how
+    # a calculator is used (one object, many temperatures / data sets), and a stale or colliding cache entry shows up as a wrong result
+    hist = work_vac.get_calc(name, nth, slot='history')
+    hist.clearcache()
     L = max(T.Torus.needed_L(diff), 5)
     tor = T.Torus(diff, L)
     sample = None
@@ -78,9 +82,8 @@ def run_case(case):
         mon.count('om2_classes_used', len(tor.used2))
         # real calculator
         try:
-            diff.GFcalc = real
-            diff.clearcache()
-            Lr = [np.array(x) for x in diff.Lij(*args)]
+            Lr = [np.array(x) for x in hist.Lij(*args)]
+            mon.count('inputs_on_uncleared_calculator', k > 0)
             # (a) stub
             stub = T.GFstub(real, tor, exact_eta=True)
             diff.GFcalc = stub
@@ -150,4 +153,5 @@ def run_case(case):
                         mon.count('e2e_mesh_escalations')
                     a = Lfine[('L0vv', 'Lss', 'Lsv', 'L1vv').index(nm)]
                 mon.close(a, b, 3e-3, 'C01:e2e:' + nm, det(nm + ' real vs extrapolated chain L=%s' % sizes, a, b), tags, scale=sce)
+    hist.clearcache()
     return mon.result(sample=sample)
